@@ -5,8 +5,11 @@
 (* a record that breaks clauses is printed as {line, failed} and the cursor     *)
 (* still moves on, so one pass judges the whole recording; acceptance requires  *)
 (* the whole trace to be consumed.  Crash / Hang / Threw records (a child       *)
-(* process died, a call threw) are never allowed; an unknown record stops the   *)
-(* cursor (framework error).                                                    *)
+(* process died with the constrained-space code on its stack, ran away, a call  *)
+(* threw) are never allowed; PlannerDied (a planner crashed inside its own      *)
+(* data structures: no path, nothing of this property to judge - the planner    *)
+(* properties own that) is consumed and counted by the check; an unknown record *)
+(* stops the cursor (framework error).                                          *)
 EXTENDS ConstrainedContract, TraceIO
 
 VARIABLE l
@@ -23,9 +26,10 @@ TInterp == On("Interp", FailedInterp(Ev))
 TGeo == On("Geo", FailedGeo(Ev))
 TMotion == On("Motion", FailedMotion(Ev))
 TPath == On("PlannerPath", FailedPath(Ev))
+TPlannerDied == l <= NLog /\ Ev.e = "PlannerDied" /\ l' = l + 1
 TBad == l <= NLog /\ Ev.e \in {"Crash", "Hang", "Threw"} /\ Report({Ev.e}) /\ l' = l + 1
 
-TNext == TReset \/ TSample \/ TValidSample \/ TInterp \/ TGeo \/ TMotion \/ TPath \/ TBad
+TNext == TReset \/ TSample \/ TValidSample \/ TInterp \/ TGeo \/ TMotion \/ TPath \/ TPlannerDied \/ TBad
 TSpec == TInit /\ [][TNext]_l
 NotAccepted == l <= NLog
 ==============================================================================
